@@ -532,11 +532,12 @@ func main() {
 		r.Count("table-row")
 	}
 	rng := hlib.NewRng(r.Seed)
-	for _, dual := range []bool{false, true} {
-		for _, pr := range preStates {
-			r.Raw("# case sched")
-			dfs(r, dual, pr, initState(dual, pr, false, false), nil)
-		}
+	// Order: ./check keeps the first 50 spec failures only, and the two-dial schedules without a stale reap contain
+	// several hundred lines of the known simultaneous-open finding - they come last, so that they cannot hide another
+	// failure.
+	for _, pr := range preStates {
+		r.Raw("# case sched")
+		dfs(r, false, pr, initState(false, pr, false, false), nil)
 	}
 	// stale reaps at every point of every interleaving.
 	// one dial: one stale reap at P or at Q, path by path; stale reaps at both sides, state by state.
@@ -555,6 +556,15 @@ func main() {
 			r.Raw("# case sched")
 			reachLate(r, rng, dual, pr, initState(dual, pr, true, true), nil, false, map[string]bool{})
 		}
+	}
+	nre := 2
+	if r.Thorough() {
+		nre = 10
+	}
+	relive(r, nre)
+	for _, pr := range preStates {
+		r.Raw("# case sched")
+		dfs(r, true, pr, initState(true, pr, false, false), nil)
 	}
 	// random label sequences, with repetitions and labels that are not enabled (the model skips them)
 	n := 3000
@@ -582,11 +592,6 @@ func main() {
 		nlive = 40
 	}
 	live(r, nlive)
-	nre := 2
-	if r.Thorough() {
-		nre = 10
-	}
-	relive(r, nre)
 	r.Finish()
 }
 
